@@ -121,18 +121,18 @@ Lemma truncate_loop_fold rrs : forall size L c i l' k c',
                       c' = snd (fold_left step_r (firstn j rrs) (L, c))).
 Proof.
   induction rrs as [|r t IH]; intros size L c i l' k c' Hlt H.
-  - cbn [truncate_loop] in H. injection H as <- <- <-. exists 0%nat. cbn. repeat split; lia.
+  - cbn [truncate_loop] in H. injection H as <- <- <-. exists 0%nat. cbn [firstn fold_left fst snd length]. (split; [lia|]); (split; [lia|]); (split; [lia|]); (split; [lia|]); intro; split; (reflexivity || lia).
   - cbn [truncate_loop] in H. rewrite N2Z.id in H.
     destruct (len_rr r L c) as [n c1] eqn:En.
     assert (Hstep : step_r (L, c) r = (L + n, c1)) by (unfold step_r; cbn [fst snd]; now rewrite En).
     destruct (size <? Z.of_N L + Z.of_N n)%Z eqn:E1.
-    + injection H as <- <- <-. exists 0%nat. cbn [firstn fold_left fst snd length]. repeat split; lia.
+    + injection H as <- <- <-. exists 0%nat. cbn [firstn fold_left fst snd length]. (split; [lia|]); (split; [lia|]); (split; [lia|]); (split; [lia|]); intro; split; (reflexivity || lia).
     + destruct (Z.of_N L + Z.of_N n =? size)%Z eqn:E2.
       * injection H as <- <- <-. exists 1%nat. cbn [firstn fold_left length]. rewrite Hstep. cbn [fst snd].
-        repeat split; lia.
+        (split; [lia|]); (split; [lia|]); (split; [lia|]); (split; [lia|]); intro; split; (reflexivity || lia).
       * replace (Z.of_N L + Z.of_N n)%Z with (Z.of_N (L + n)) in H by lia.
         destruct (IH size (L + n) c1 (S i) l' k c') as [j [Hk [Hj [A [B C]]]]]; [lia|exact H|].
-        exists (S j). cbn [firstn fold_left length]. rewrite Hstep. repeat split; try assumption; lia.
+        exists (S j). cbn [firstn fold_left length]. rewrite Hstep. (split; [lia|]); (split; [lia|]); (split; [exact A|]); (split; [exact B|exact C]).
 Qed.
 
 (* the state truncate carries (l, ct) against the real folds a = (L, c):
@@ -200,14 +200,15 @@ Proof.
   set (sz' := match opt with Some o => (sz - Z.of_N (rr_len o))%Z | None => sz end).
   assert (Hsz' : sz' = (sz - olen)%Z) by (unfold sz', olen; destruct opt; lia).
   set (a := questions_len (m_question m)).
-  set (q := Z.of_N (fst a)).
-  assert (I0 : tinv sz' q a (Z.of_N (fst a)) (snd a)) by (unfold tinv, q; repeat split; lia).
+  assert (I0 : tinv sz' (Z.of_N (fst a)) a (Z.of_N (fst a)) (snd a)).
+  { unfold tinv. split; [lia|]. split; [lia|]. intros _. split; reflexivity. }
   destruct (trunc_section (m_answer m) sz' (Z.of_N (fst a), snd a)) as [[l1 na] c1] eqn:S1.
   pose proof (trunc_section_inv _ _ _ _ _ _ _ _ _ I0 S1) as I1.
   destruct (trunc_section (m_ns m) sz' (l1, c1)) as [[l2 nn] c2] eqn:S2.
   pose proof (trunc_section_inv _ _ _ _ _ _ _ _ _ I1 S2) as I2.
   destruct (trunc_section extra sz' (l2, c2)) as [[l3 ne] c3] eqn:S3.
   pose proof (trunc_section_inv _ _ _ _ _ _ _ _ _ I2 S3) as I3.
+  set (q := Z.of_N (fst a)) in *.
   set (a3 := fold_left step_r (firstn ne extra)
                (fold_left step_r (firstn nn (m_ns m)) (fold_left step_r (firstn na (m_answer m)) a))) in *.
   destruct I3 as [J1 [J2 _]].
@@ -259,3 +260,41 @@ Proof.
   intros Ht Hso Hok Hp. pose proof (truncate_len_bound m size0 Ht Hso).
   pose proof (msg_len_ge_pack _ w Hok Hp). lia.
 Qed.
+
+(* ================================================================== *)
+(* 4. witnesses                                                         *)
+(* ================================================================== *)
+Definition t_rr (nm : string) (ty : N) (kind : string) (d : rdata) : rr :=
+  {| rr_name := bytes_of_string nm; rr_type := ty; rr_class := 1; rr_ttl := 60; rr_rdlength := 0;
+     rr_kind := kind; rr_data := d |}.
+Definition t_txt (nm : string) (n : nat) : rr := t_rr nm 16 "TXT" [("Txt"%string, V_ss [repeat 97 n])].
+(* an OPT record with one padding option (code 12) of n octets *)
+Definition t_opt (n : nat) : rr := t_rr "." 41 "OPT" [("Option"%string, V_pairs [(12, repeat 0 n, N.of_nat n)])].
+Definition t_msg (an ex : list rr) : msg :=
+  {| m_id := 1; m_response := true; m_opcode := 0; m_aa := false; m_tc := false; m_rd := true; m_ra := true;
+     m_z := false; m_ad := false; m_cd := false; m_rcode := 0; m_compress := false;
+     m_question := [{| q_name := bytes_of_string "example.org."; q_type := 16; q_class := 1 |}];
+     m_answer := an; m_ns := []; m_extra := ex |}.
+
+(* three answers of which one is lost *)
+Definition t_three : msg :=
+  t_msg [t_txt "a.example.org." 200; t_txt "b.example.org." 200; t_txt "c.example.org." 200] [t_opt 0].
+Lemma t_three_facts :
+  has_tsig t_three = false /\ set_aside_ok t_three = true /\ (fixed_part t_three <= trunc_size 512)%Z /\
+  msg_len t_three = 722 /\
+  length (m_answer (truncate t_three 512)) = 2%nat /\ length (m_extra (truncate t_three 512)) = 1%nat /\
+  m_tc (truncate t_three 512) = true /\ msg_len (truncate t_three 512) = 474 /\
+  msg_okb2 (truncate t_three 512) = true /\
+  (exists w, pack_msg (truncate t_three 512) = Ok w /\ lenN w = 474).
+Proof. vm_compute. repeat split; try reflexivity; try discriminate. eexists. split; reflexivity. Qed.
+
+(* the unconditional form is false: header, question and an OPT record carrying
+   500 octets of padding are 544 octets; Truncate(512) drops both answers, keeps
+   the OPT, and the result still measures and packs to 544 > 512 *)
+Definition t_padded : msg := t_msg [t_txt "a.example.org." 10; t_txt "b.example.org." 10] [t_opt 500].
+Theorem truncate_len_fits_refuted :
+  has_tsig t_padded = false /\ set_aside_ok t_padded = true /\ msg_okb2 (truncate t_padded 512) = true /\
+  m_answer (truncate t_padded 512) = [] /\ fixed_part t_padded = 544%Z /\
+  msg_len (truncate t_padded 512) = 544 /\
+  (exists w, pack_msg (truncate t_padded 512) = Ok w /\ lenN w = 544).
+Proof. vm_compute. repeat split; try reflexivity. eexists. split; reflexivity. Qed.
